@@ -26,6 +26,8 @@ def configs(tier):
 
 def budget(cfg, tier):
     base = 4000 if tier == 'quick' else 40000
+    if cfg.bits == 8:
+        return base * 4   # several tasks, so that the exhaustive small-alphabet strings are spread over workers
     if cfg.n >= 1024:
         return 60 if tier == 'quick' else 300
     if cfg.n >= 128:
@@ -187,6 +189,16 @@ def requests(cfg, rng, n, tier, part, nparts, st):
             yield 'pd', (bytes([0] * (len(ds) + 1) + ds), r)
             yield 'pd', (bytes(to_digits(cfg.mask + 1, r)), r)
     # bounded by the budget of the configuration: every bit length when affordable, otherwise a seed-dependent stride
+    if cfg.bits == 8:
+        # every string of length <= 4 over a small alphabet (signs, digits, letters, space, underscore) in four radices
+        import itertools
+        alpha = [b'+', b'-', b'0', b'1', b'9', b'a', b'Z', b' ', b'_']
+        allstr = [b''] + [b''.join(t) for L in (1, 2, 3, 4) for t in itertools.product(alpha, repeat=L)]
+        lo_, hi_ = (len(allstr) * part // nparts, len(allstr) * (part + 1) // nparts)
+        for x in allstr[lo_:hi_]:
+            for r in (2, 10, 16, 36):
+                yield 'ps', (x, r)
+        st['exhaustive'].append('%s: every string of length <= 4 over the alphabet "+-019aZ _" in radix 2, 10, 16, 36' % cfg.name)
     stride = max(1, -(-(cfg.bits + 1) // max(256, 2 * n * nparts)))
     ks = list(range(rng.randrange(stride), cfg.bits + 2, stride))
     lo, hi = (len(ks) * part // nparts, len(ks) * (part + 1) // nparts)
